@@ -11,7 +11,7 @@ import ast
 from ..cfg import cfg_of
 from ..flow import flow_of, path_of
 from ..loader import FUNC, AnalysisError, dotted, last_name, loc, short, walk_local
-from ..util import PATH, SYSTEM
+from ..util import PATH, SYSTEM, kwarg
 from ..variants import B, K
 
 EXPLANATION = (
@@ -238,7 +238,9 @@ def r153(ctx):
     if not okc:
         raise AnalysisError("R-15.3: no comparison of length with maxlen in Path.append")
     ep = [c for c in walk_local(f) if isinstance(c, ast.Call) and last_name(c) == "empty_path"]
-    if ep and any(k.arg == "maxlen" and ast.unparse(k.value) == "maxlen" for k in ep[0].keywords):
+    mlparam = next((a.arg for a in f.args.args if a.arg == "maxlen"), None)
+    mlarg = kwarg(ep[0], "maxlen", 0) if ep else None
+    if ep and mlarg is not None and isinstance(mlarg, ast.Name) and (mlarg.id == mlparam or any(isinstance(d.stmt, ast.Assign) for d, _ in flow_of(f).rd(mlarg.id, cfg.node_of(ep[0])))):
         ctx.ok(rid, ep[0], "the pasted path is created with the requested limit")
     else:
         ctx.bad(rid, ep[0] if ep else f, "the pasted path is not created with the requested length limit", construct="empty_path without maxlen=maxlen")
